@@ -113,7 +113,7 @@ class TlcResult:
         self.errors = [l for l in out.splitlines() if l.startswith("Error:")]
         # coverage: "<Action line ..>: distinct:total"
         self.coverage = {}
-        for m in re.finditer(r"^<(\w+) line \d+, col \d+ to line \d+, col \d+ of module (\w+)>: (\d+):(\d+)", out, re.M):
+        for m in re.finditer(r"^<(\w+) line \d+, col \d+ to line \d+, col \d+ of module (\w+)(?: \([\d ]+\))?>: (\d+):(\d+)", out, re.M):
             self.coverage[m.group(1)] = self.coverage.get(m.group(1), 0) + int(m.group(4))
 
     def printed(self, tag):
